@@ -20,6 +20,7 @@ import (
 	"verif/harness/fsrc"
 	"verif/harness/logcap"
 	"verif/harness/mredis"
+	"verif/harness/netx"
 	"verif/harness/stats"
 )
 
@@ -82,14 +83,15 @@ func leakCheck(t fataler, path string) bool {
 	return violation(t, "C19", sig, "a configured password appears in the output of path %q (%d records), e.g.: %s", path, len(leaks), what)
 }
 
-var c19Paths = []string{"restore-entry", "full-sync", "incremental", "resume-cuts", "checkpoint-load", "rump", "supervisor", "syncer-topology", "handshake", "reconnect-refused", "sync-end-to-end", "status-documents", "auth-type-unknown", "cluster-discovery"}
+var c19Paths = []string{"restore-entry", "full-sync", "incremental", "resume-cuts", "checkpoint-load", "rump", "supervisor", "syncer-topology", "handshake", "reconnect-refused", "sync-end-to-end", "status-documents", "auth-type-unknown", "cluster-discovery", "supervisor-retry", "cluster-connect-failure"}
 
 // c19Path runs one of the tool's run paths (the other properties' drivers, with the sentinel
 // passwords configured everywhere and the log at a generated level) and scans what was printed.
 func c19Path(t *rapid.T) { c19RunPath(t, rapid.SampledFrom(c19Paths).Draw(t, "path")) }
 
 func c19RunPath(t *rapid.T, path string) {
-	level := rapid.SampledFrom([]rlog.LogLevel{rlog.LEVEL_NONE, rlog.LEVEL_ERROR, rlog.LEVEL_WARN, rlog.LEVEL_INFO, rlog.LEVEL_DEBUG, rlog.LEVEL_DEBUG}).Draw(t, "level")
+	// the most verbose level shows every statement the lower ones show: it gets most of the weight
+	level := rapid.SampledFrom([]rlog.LogLevel{rlog.LEVEL_NONE, rlog.LEVEL_ERROR, rlog.LEVEL_WARN, rlog.LEVEL_INFO, rlog.LEVEL_INFO, rlog.LEVEL_DEBUG, rlog.LEVEL_DEBUG, rlog.LEVEL_DEBUG, rlog.LEVEL_DEBUG}).Draw(t, "level")
 	logcap.Cap.TakeLeaks()
 	before, _ := logcap.Cap.Stats()
 	rlog.SetLevel(level)
@@ -146,6 +148,35 @@ func c19RunPath(t *rapid.T, path string) {
 		}
 		s.plan[s.nodes[len(s.nodes)-1]][0] = nbMaster
 		runShard(s)
+	case "supervisor-retry":
+		// the first discovery round finds no master: the supervisor waits (6 s) and retries
+		sh := drawShard(t, 0)
+		for n := range sh.plan {
+			sh.plan[n][0] = nbSlave
+			for a := 1; a < len(sh.plan[n]); a++ {
+				sh.plan[n][a] = nbSlave
+			}
+		}
+		sh.plan[sh.nodes[len(sh.nodes)-1]][1] = nbMaster
+		runShard(sh)
+	case "cluster-connect-failure":
+		// a connection of cluster type whose start node cannot be reached (checkpoint load, workers, rump against a cluster)
+		ln, err := netx.Listen()
+		if err != nil {
+			t.Fatalf("harness: %v", err)
+		}
+		dead := ln.Addr().String()
+		ln.Close()
+		for _, pw := range []string{srcSentinel, tgtSentinel} {
+			logcap.RunTree(func() {
+				if c, err := utils.OpenRedisConn([]string{dead}, "auth", pw, true, false); err == nil && c != nil {
+					c.Close()
+				} else if err != nil {
+					logcap.Cap.Scan("error returned by OpenRedisConn (cluster)", []byte(err.Error()))
+				}
+			})
+		}
+		logcap.Cap.TakeAborts()
 	case "syncer-topology":
 		c20Syncer(t)
 	case "handshake":
@@ -256,7 +287,19 @@ func TestC19EachPath(t *testing.T) {
 			continue
 		}
 		p := p
-		t.Run(strings.ReplaceAll(p, "-", "_"), func(t *testing.T) { rapid.Check(t, func(t *rapid.T) { c19RunPath(t, p) }) })
+		// paths that cost milliseconds are repeated inside one case, so that rare input shapes of theirs are reached
+		reps := 1
+		switch p {
+		case "restore-entry", "full-sync", "checkpoint-load", "handshake", "status-documents", "auth-type-unknown", "cluster-discovery", "supervisor", "syncer-topology", "cluster-connect-failure":
+			reps = 6
+		}
+		t.Run(strings.ReplaceAll(p, "-", "_"), func(t *testing.T) {
+			rapid.Check(t, func(t *rapid.T) {
+				for i := 0; i < reps; i++ {
+					c19RunPath(t, p)
+				}
+			})
+		})
 	}
 }
 
